@@ -295,6 +295,8 @@ class Interp(ExprMixin, CallMixin):
         return 'break'
 
     def s_Continue(self, st, fr):
+        from .trace import Continue
+        fr.emit(Continue(st, fr.func))
         return 'continue'
 
     def bind_target(self, target, value, fr, node=None):
@@ -488,7 +490,7 @@ class Interp(ExprMixin, CallMixin):
         b = self.fork(fr, node.orelse)
         a.cond_depth += 1
         b.cond_depth += 1
-        self.refine_types(test, cond, a)
+        self.refine_types(self.expand_predicate(test, fr), cond, a)
         self.assume(cond, True, a)
         self.assume(cond, False, b)
         keys_before = self.key_snapshot()
@@ -597,6 +599,41 @@ class Interp(ExprMixin, CallMixin):
                 common &= other.get(pid, (p, set()))[1]
             for k in common:
                 p.maybe.discard(k)
+
+    def expand_predicate(self, test, fr, depth=0):
+        """``self.helper(a, b)`` whose body is local assignments followed by one ``return <expression>``: the expression with the
+        locals written out and the parameters replaced by the arguments, so that a type test moved into a helper refines the types
+        like the test written in place.  Anything else is returned as it is."""
+        import copy
+        from .astutil import inline_locals
+        if depth > 2 or not (isinstance(test, ast.Call) and isinstance(test.func, ast.Attribute) and isinstance(test.func.value, ast.Name)
+                             and test.func.value.id in ('self', 'cls') and not test.keywords):
+            return test
+        recv = fr.recv
+        k = recv.cls if isinstance(recv, ClassV) else getattr(recv, 'cls', None)
+        if not isinstance(k, ClassInfo):
+            k = fr.defcls if isinstance(getattr(fr, 'defcls', None), ClassInfo) else None
+        f = k.resolve(test.func.attr) if k is not None else None
+        if f is None or f.module.external or not isinstance(getattr(f, 'node', None), ast.FunctionDef):
+            return test
+        body = [s for s in f.node.body if not (isinstance(s, ast.Expr) and isinstance(s.value, ast.Constant))]
+        if not body or not isinstance(body[-1], ast.Return) or body[-1].value is None or \
+                not all(isinstance(s, ast.Assign) and len(s.targets) == 1 and isinstance(s.targets[0], ast.Name) for s in body[:-1]):
+            return test
+        params = [a.arg for a in f.node.args.args]
+        if f.kind != 'staticmethod':
+            params = params[1:]
+        if len(params) != len(test.args) or any(isinstance(a, ast.Starred) for a in test.args):
+            return test
+        if not all(isinstance(a, (ast.Name, ast.Attribute, ast.Constant)) for a in test.args):
+            return test         # arguments are written twice: only side effect free ones
+        expr = inline_locals(body[-1].value, f.node)
+        binding = dict(zip(params, test.args))
+
+        class Subst(ast.NodeTransformer):
+            def visit_Name(self, n):
+                return copy.deepcopy(binding[n.id]) if n.id in binding else n
+        return ast.fix_missing_locations(Subst().visit(copy.deepcopy(expr)))
 
     def refine_types(self, test, cond, fr):
         """``if isinstance(x, T)`` (possibly inside ``and``): x has type T in the then branch."""
